@@ -596,6 +596,10 @@ def jobs_C13(tier, seed):
             if ep:
                 s['endpoint'] = ep
             jobs.append(job(f'wiring upload {trs[0]["src"]} {rcc} {ep or "https"}', s, {'sched': 0}, want, forced_cost=1, max_execs=20000))
+            # the same with a socket that takes 2 bytes per second: half the limit of 4 B/s
+            s = dict(copy.deepcopy(s), send_think=1.0)
+            s['config'] = dict(s['config'], max_request_concurrency=1)
+            jobs.append(job(f'wiring slow socket {trs[0]["src"]} {rcc} {ep or "https"}', s, {'sched': 0}, want, forced_cost=1, max_execs=20000))
     # cancel / failure while reads are being throttled
     for name, trs, c in (('upload', [T_up('path', 40)], C), ('ranged download', [T_dl('path', 'b40')], C2)):
         s = scn(copy.deepcopy(trs), dict(c), seed=seed, bw_threshold=2, body_read_size=2, horizon=100000,
